@@ -266,6 +266,11 @@ func (e *Executor) runOnService(ctx context.Context, isRootPlan bool, service st
 }
 
 func (pathTargets *pathSubqueryMetadata) extractKeys(node interface{}, path []PathStep) error {
+	// A null object has no fields to fetch from another service: it stays null.
+	if node == nil {
+		return nil
+	}
+
 	// Extract key for every element in the slice
 	if slice, ok := node.([]interface{}); ok {
 		for i, elem := range slice {
